@@ -8,6 +8,7 @@ import Abmarl.Model.TwinDriver
 import Abmarl.Model.MaskDriver
 import Abmarl.Model.ConfigDriver
 import Abmarl.Model.ObserversDriver
+import Abmarl.Model.DoneDriver
 /-! Line-protocol driver: one request per line on stdin, one reply per line on stdout. -/
 open Abmarl
 
@@ -30,6 +31,9 @@ def dispatch (line : String) : String :=
       | "cfg_overlap" => CfgDriver.handleOverlap args
       | "cfg_box" => CfgDriver.handleBox args
       | "gobs" => ObserversDriver.handle args
+      | "gdone" => DoneDriver.handleDone args
+      | "gsmart" => DoneDriver.handleSmart args
+      | "gmerge" => DoneDriver.handleMerge args
       | "ping" => some (.list (.atom "pong" :: args))
       | _ => none
     match r with
